@@ -299,6 +299,19 @@ pub fn render_glif(g: &Glyph, format: u8, s: &mut Surf, variant: &str) -> Vec<u8
         if let Some(c) = &im.color {
             a.push(kv("color", col_str(c)));
         }
+        let (t, d) = (&im.transform, norad::AffineTransform::default());
+        for (k, v, dv) in [
+            ("xScale", t.x_scale, d.x_scale),
+            ("xyScale", t.xy_scale, d.xy_scale),
+            ("yxScale", t.yx_scale, d.yx_scale),
+            ("yScale", t.y_scale, d.y_scale),
+            ("xOffset", t.x_offset, d.x_offset),
+            ("yOffset", t.y_offset, d.y_offset),
+        ] {
+            if v != dv || s.r.chance(1, 5) {
+                a.push(kv(k, s.num(v)));
+            }
+        }
         parts.push(s.tag("image", &a, true));
     }
     let mut gl = String::new();
@@ -780,6 +793,485 @@ fn observe_glif(xml: &[u8], intended: Option<&Glyph>) -> String {
     }
 }
 
+
+// ------------------------------------------------------------------ structure-aware mutation of existing files
+
+#[derive(Clone, Debug, PartialEq)]
+enum Tok {
+    /// `<name attrs>` / `<name attrs/>`: name, attributes (name, value, quote), self-closing
+    Open(String, Vec<(String, String, char)>, bool),
+    Close(String),
+    Text(String),
+    /// comments, processing instructions, DOCTYPE, CDATA: kept verbatim
+    Other(String),
+}
+
+fn tokenize(src: &str) -> Option<Vec<Tok>> {
+    let b: Vec<char> = src.chars().collect();
+    let mut i = 0;
+    let mut out = Vec::new();
+    let starts = |i: usize, pat: &str| -> bool { pat.chars().enumerate().all(|(k, c)| b.get(i + k) == Some(&c)) };
+    while i < b.len() {
+        if b[i] != '<' {
+            let j = (i..b.len()).find(|&j| b[j] == '<').unwrap_or(b.len());
+            out.push(Tok::Text(b[i..j].iter().collect()));
+            i = j;
+            continue;
+        }
+        let (endpat, _kind) = if starts(i, "<!--") {
+            ("-->", 0)
+        } else if starts(i, "<![CDATA[") {
+            ("]]>", 0)
+        } else if starts(i, "<?") {
+            ("?>", 0)
+        } else if starts(i, "<!") {
+            (">", 0)
+        } else {
+            ("", 1)
+        };
+        if !endpat.is_empty() {
+            let mut j = i;
+            while j < b.len() && !starts(j, endpat) {
+                j += 1;
+            }
+            if j >= b.len() {
+                return None;
+            }
+            j += endpat.len();
+            out.push(Tok::Other(b[i..j].iter().collect()));
+            i = j;
+            continue;
+        }
+        // a tag: scan to '>' outside quotes
+        let mut j = i + 1;
+        let mut q: Option<char> = None;
+        while j < b.len() {
+            match q {
+                Some(c) => {
+                    if b[j] == c {
+                        q = None
+                    }
+                }
+                None => {
+                    if b[j] == '"' || b[j] == '\'' {
+                        q = Some(b[j])
+                    } else if b[j] == '>' {
+                        break;
+                    }
+                }
+            }
+            j += 1;
+        }
+        if j >= b.len() {
+            return None;
+        }
+        let inner: String = b[i + 1..j].iter().collect();
+        i = j + 1;
+        if let Some(name) = inner.strip_prefix('/') {
+            out.push(Tok::Close(name.trim().to_string()));
+            continue;
+        }
+        let (inner, selfclose) = match inner.strip_suffix('/') {
+            Some(x) => (x.to_string(), true),
+            None => (inner, false),
+        };
+        let cs: Vec<char> = inner.chars().collect();
+        let mut k = 0;
+        while k < cs.len() && !cs[k].is_whitespace() {
+            k += 1;
+        }
+        let name: String = cs[..k].iter().collect();
+        let mut attrs = Vec::new();
+        loop {
+            while k < cs.len() && cs[k].is_whitespace() {
+                k += 1;
+            }
+            if k >= cs.len() {
+                break;
+            }
+            let s0 = k;
+            while k < cs.len() && cs[k] != '=' && !cs[k].is_whitespace() {
+                k += 1;
+            }
+            let an: String = cs[s0..k].iter().collect();
+            while k < cs.len() && cs[k].is_whitespace() {
+                k += 1;
+            }
+            if k >= cs.len() || cs[k] != '=' {
+                return None;
+            }
+            k += 1;
+            while k < cs.len() && cs[k].is_whitespace() {
+                k += 1;
+            }
+            if k >= cs.len() || (cs[k] != '"' && cs[k] != '\'') {
+                return None;
+            }
+            let qc = cs[k];
+            k += 1;
+            let v0 = k;
+            while k < cs.len() && cs[k] != qc {
+                k += 1;
+            }
+            if k >= cs.len() {
+                return None;
+            }
+            attrs.push((an, cs[v0..k].iter().collect::<String>(), qc));
+            k += 1;
+        }
+        out.push(Tok::Open(name, attrs, selfclose));
+    }
+    Some(out)
+}
+
+fn untokenize(toks: &[Tok], r: &mut Rng, loose: bool) -> String {
+    let mut o = String::new();
+    for t in toks {
+        match t {
+            Tok::Open(n, attrs, sc) => {
+                o.push('<');
+                o.push_str(n);
+                for (k, v, q) in attrs {
+                    o.push_str(if loose { *r.pick(&[" ", " ", "  ", "\n", "\t", "\n    "]) } else { " " });
+                    o.push_str(&format!("{}={}{}{}", k, q, v, q));
+                }
+                if loose {
+                    o.push_str(*r.pick(&["", "", " ", "\n"]));
+                }
+                o.push_str(if *sc { "/>" } else { ">" });
+            }
+            Tok::Close(n) => o.push_str(&format!("</{}>", n)),
+            Tok::Text(s) | Tok::Other(s) => o.push_str(s),
+        }
+    }
+    o
+}
+
+const NUMERIC_ATTRS: [&str; 12] =
+    ["x", "y", "width", "height", "angle", "xScale", "xyScale", "yxScale", "yScale", "xOffset", "yOffset", "hex_"];
+
+/// applies a random subset of the mutation classes; returns the new text, the classes applied and whether
+/// all of them preserve the meaning of the file
+pub fn mutate_xml(src: &str, seed: u64, is_glif: bool) -> Option<(String, Vec<&'static str>, bool)> {
+    let mut r = Rng::new(seed ^ 0x3c7);
+    let mut toks = tokenize(src)?;
+    let mut classes: Vec<&'static str> = Vec::new();
+    let mut preserving = true;
+    let pick = |r: &mut Rng| r.chance(1, 2);
+    // 1/2: attribute order and quotes
+    if pick(&mut r) {
+        classes.push("attr-order");
+        for t in toks.iter_mut() {
+            if let Tok::Open(_, attrs, _) = t {
+                for i in (1..attrs.len()).rev() {
+                    let j = r.below(i + 1);
+                    attrs.swap(i, j);
+                }
+            }
+        }
+    }
+    if pick(&mut r) {
+        classes.push("quotes");
+        for t in toks.iter_mut() {
+            if let Tok::Open(_, attrs, _) = t {
+                for a in attrs.iter_mut() {
+                    let other = if a.2 == '"' { '\'' } else { '"' };
+                    if !a.1.contains(other) && r.chance(1, 2) {
+                        a.2 = other;
+                    }
+                }
+            }
+        }
+    }
+    // 5: numeric spellings
+    if pick(&mut r) {
+        classes.push("numbers");
+        let mut in_num: Option<String> = None;
+        for t in toks.iter_mut() {
+            match t {
+                Tok::Open(n, attrs, _) => {
+                    if is_glif {
+                        for a in attrs.iter_mut() {
+                            if NUMERIC_ATTRS.contains(&a.0.as_str()) {
+                                if let Ok(v) = a.1.parse::<f64>() {
+                                    if v.is_finite() {
+                                        a.1 = respell(v, &mut r);
+                                    }
+                                }
+                            }
+                        }
+                    }
+                    in_num = if n == "real" || n == "integer" { Some(n.clone()) } else { None };
+                }
+                Tok::Text(s) => {
+                    if let Some(kind) = &in_num {
+                        if kind == "real" {
+                            if let Ok(v) = s.trim().parse::<f64>() {
+                                if v.is_finite() {
+                                    *s = respell(v, &mut r);
+                                }
+                            }
+                        } else if let Ok(v) = s.trim().parse::<i64>() {
+                            *s = if v >= 0 && r.chance(1, 3) { format!("+{}", v) } else { format!("{}", v) };
+                        }
+                    }
+                    in_num = None;
+                }
+                _ => in_num = None,
+            }
+        }
+    }
+    // 6: order of the children of <glyph> (same-named siblings keep their relative order)
+    if is_glif && pick(&mut r) {
+        if let Some(t2) = reorder_children(&toks, &mut r) {
+            classes.push("reorder");
+            toks = t2;
+        }
+    }
+    // 7: one optional child removed (changes the meaning)
+    if r.chance(1, 4) {
+        if let Some(t2) = remove_child(&toks, &mut r, if is_glif { "glyph" } else { "dict" }) {
+            classes.push("removed");
+            preserving = false;
+            toks = t2;
+        }
+    }
+    // 4: comments and blanks between elements
+    if pick(&mut r) {
+        classes.push("comments");
+        let mut out = Vec::new();
+        for i in 0..toks.len() {
+            out.push(toks[i].clone());
+            let between = match (&toks[i], toks.get(i + 1), toks.get(i + 2)) {
+                // whitespace-only text between two tags that are not the start and end of one leaf element
+                (a, Some(Tok::Text(s)), Some(b)) if s.trim().is_empty() => match (a, b) {
+                    (Tok::Open(_, _, false), Tok::Close(_)) => false,
+                    (Tok::Open(..), _) | (Tok::Close(_), _) => true,
+                    _ => false,
+                },
+                _ => false,
+            };
+            // never before the root element's start in a glif prolog position 0, never inside <note>/<string>
+            let inside_text_elem = matches!(&toks[i], Tok::Open(n, _, false) if ["note", "string", "key", "integer", "real", "data", "date"].contains(&n.as_str()));
+            if between && !inside_text_elem && r.chance(1, 4) {
+                out.push(Tok::Other(r.pick(&["<!-- m -->", "\n\n", "<!--x--> <!-- y -->", "\t"]).to_string()));
+            }
+        }
+        toks = out;
+    }
+    // 3: blanks inside tags
+    let loose = pick(&mut r);
+    if loose {
+        classes.push("blanks");
+    }
+    let mut text = untokenize(&toks, &mut r, loose);
+    // 8: declaration / BOM
+    if r.chance(1, 4) {
+        classes.push("prolog");
+        if let Some(rest) = text.strip_prefix('\u{feff}') {
+            text = rest.to_string();
+        } else if r.chance(1, 2) {
+            text = format!("{}{}", '\u{feff}', text);
+        }
+        if text.trim_start_matches('\u{feff}').starts_with("<?xml") && r.chance(1, 2) {
+            let bom = text.starts_with('\u{feff}');
+            let t = text.trim_start_matches('\u{feff}');
+            let end = t.find("?>").unwrap() + 2;
+            text = format!("{}{}{}", if bom { "\u{feff}" } else { "" }, r.pick(&["<?xml version='1.0' encoding='UTF-8'?>", "<?xml version=\"1.0\" encoding=\"utf-8\" standalone=\"yes\"?>", ""]), &t[end..]);
+        }
+    }
+    Some((text, classes, preserving))
+}
+
+fn respell(v: f64, r: &mut Rng) -> String {
+    match r.below(5) {
+        0 if v.fract() == 0.0 && v.abs() < 1e15 => format!("{:.1}", v),
+        1 => format!("{:e}", v),
+        2 if v >= 0.0 => format!("+{}", v),
+        3 if v.fract() == 0.0 && v.abs() < 1e15 => format!("{:.3}", v),
+        _ => format!("{}", v),
+    }
+}
+
+/// spans (start, end exclusive) of the children of the first element called `parent`
+fn child_spans(toks: &[Tok], parent: &str) -> Option<(usize, usize, Vec<(usize, usize, String)>)> {
+    let p0 = toks.iter().position(|t| matches!(t, Tok::Open(n, _, false) if n == parent))?;
+    let mut depth = 0usize;
+    let mut spans = Vec::new();
+    let mut cur: Option<(usize, String)> = None;
+    let mut i = p0 + 1;
+    while i < toks.len() {
+        match &toks[i] {
+            Tok::Open(n, _, sc) => {
+                if depth == 0 {
+                    if *sc {
+                        spans.push((i, i + 1, n.clone()));
+                    } else {
+                        cur = Some((i, n.clone()));
+                        depth = 1;
+                    }
+                } else if !*sc {
+                    depth += 1;
+                }
+            }
+            Tok::Close(_) => {
+                if depth == 0 {
+                    return Some((p0, i, spans));
+                }
+                depth -= 1;
+                if depth == 0 {
+                    let (s0, n) = cur.take()?;
+                    spans.push((s0, i + 1, n));
+                }
+            }
+            _ => {}
+        }
+        i += 1;
+    }
+    None
+}
+
+fn reorder_children(toks: &[Tok], r: &mut Rng) -> Option<Vec<Tok>> {
+    let (p0, pend, spans) = child_spans(toks, "glyph")?;
+    if spans.len() < 2 {
+        return None;
+    }
+    // a permutation that keeps the relative order of equally named children
+    let mut order: Vec<usize> = (0..spans.len()).collect();
+    for i in (1..order.len()).rev() {
+        let j = r.below(i + 1);
+        order.swap(i, j);
+    }
+    let mut by_name: std::collections::BTreeMap<String, Vec<usize>> = Default::default();
+    for (k, s) in spans.iter().enumerate() {
+        by_name.entry(s.2.clone()).or_default().push(k);
+    }
+    let mut next: std::collections::BTreeMap<String, usize> = Default::default();
+    let mut out: Vec<Tok> = toks[..=p0].to_vec();
+    for k in order {
+        let name = &spans[k].2;
+        let idx = next.entry(name.clone()).or_insert(0);
+        let real = by_name[name][*idx];
+        *idx += 1;
+        out.push(Tok::Text("\n  ".to_string()));
+        out.extend_from_slice(&toks[spans[real].0..spans[real].1]);
+    }
+    out.push(Tok::Text("\n".to_string()));
+    out.extend_from_slice(&toks[pend..]);
+    Some(out)
+}
+
+fn remove_child(toks: &[Tok], r: &mut Rng, parent: &str) -> Option<Vec<Tok>> {
+    let (_, _, spans) = child_spans(toks, parent)?;
+    if spans.is_empty() {
+        return None;
+    }
+    if parent == "dict" {
+        // a key and its value
+        let keys: Vec<usize> = (0..spans.len()).filter(|k| spans[*k].2 == "key" && k + 1 < spans.len()).collect();
+        if keys.is_empty() {
+            return None;
+        }
+        let k = *r.pick(&keys);
+        let mut out = toks[..spans[k].0].to_vec();
+        out.extend_from_slice(&toks[spans[k + 1].1..]);
+        Some(out)
+    } else {
+        let k = r.below(spans.len());
+        let mut out = toks[..spans[k].0].to_vec();
+        out.extend_from_slice(&toks[spans[k].1..]);
+        Some(out)
+    }
+}
+
+fn observe_mutglif(rel: &str, seed: u64) -> String {
+    let orig = match std::fs::read(testdata_root().join(rel)) {
+        Ok(b) => b,
+        Err(_) => return "p1=missing".to_string(),
+    };
+    let text = match String::from_utf8(orig.clone()) {
+        Ok(t) => t,
+        Err(_) => return "p1=missing".to_string(),
+    };
+    let (m, classes, preserving) = match mutate_xml(&text, seed, true) {
+        Some(x) => x,
+        None => return "p1=missing".to_string(),
+    };
+    let base = observe_glif(m.as_bytes(), None);
+    let sem = if preserving {
+        match (guarded(|| Glyph::parse_raw(&orig)), guarded(|| Glyph::parse_raw(m.as_bytes()))) {
+            (Ok(Ok(a)), Ok(Ok(b))) => {
+                if a == b {
+                    "1"
+                } else {
+                    "0"
+                }
+            }
+            (Ok(Ok(_)), _) => "rejected",
+            _ => "-",
+        }
+    } else {
+        "-"
+    };
+    format!("{} mc={} sem={}", base, if classes.is_empty() { "none".to_string() } else { classes.join("+") }, sem)
+}
+
+fn observe_mutufo(rel: &str, seed: u64, scratch: &Path) -> String {
+    let src = scratch.join("c04-in.ufo");
+    copy_tree(&testdata_root().join(rel), &src);
+    let orig = guarded(|| Font::load(&src));
+    let mut r = Rng::new(seed ^ 0x77);
+    let mut files: Vec<String> = snapshot(&src)
+        .into_iter()
+        .filter(|(rel, kind, _)| *kind == 'f' && (rel.ends_with(".plist") || rel.ends_with(".glif")))
+        .map(|(rel, _, _)| rel)
+        .collect();
+    files.sort();
+    let mut classes: Vec<&'static str> = Vec::new();
+    let mut preserving = true;
+    let n = 1 + r.below(4);
+    for _ in 0..n {
+        if files.is_empty() {
+            break;
+        }
+        let f = r.pick(&files).clone();
+        let p = src.join(&f);
+        if let Ok(text) = std::fs::read_to_string(&p) {
+            // contents.plist / layercontents.plist entries are not "optional": only meaning-preserving classes there
+            if let Some((m, cs, pres)) = mutate_xml(&text, r.next(), f.ends_with(".glif")) {
+                if !pres && (f.ends_with("contents.plist") || f.ends_with("metainfo.plist")) {
+                    continue;
+                }
+                std::fs::write(&p, m).unwrap();
+                for c in cs {
+                    if !classes.contains(&c) {
+                        classes.push(c);
+                    }
+                }
+                preserving &= pres;
+            }
+        }
+    }
+    let sem = if preserving {
+        match (orig, guarded(|| Font::load(&src))) {
+            (Ok(Ok(a)), Ok(Ok(b))) => {
+                if a == b {
+                    "1"
+                } else {
+                    "0"
+                }
+            }
+            (Ok(Ok(_)), _) => "rejected",
+            _ => "-",
+        }
+    } else {
+        "-"
+    };
+    let base = observe_tree(&src, None, scratch);
+    rm_rf(&src);
+    format!("{} mc={} sem={}", base, if classes.is_empty() { "none".to_string() } else { classes.join("+") }, sem)
+}
+
 fn field<'a>(toks: &[&'a str], k: &str) -> &'a str {
     toks.iter().find(|t| t.starts_with(&format!("{}=", k))).map(|t| &t[k.len() + 1..]).unwrap_or("")
 }
@@ -844,6 +1336,14 @@ pub fn observe(toks: &[&str], scratch: &Path) -> String {
             rm_rf(&src);
             r
         }
+        "mutglif" => {
+            let rel = String::from_utf8(unhex(field(toks, "p"))).unwrap();
+            observe_mutglif(&rel, field(toks, "s").parse().unwrap())
+        }
+        "mutufo" => {
+            let rel = String::from_utf8(unhex(field(toks, "p"))).unwrap();
+            observe_mutufo(&rel, field(toks, "s").parse().unwrap(), scratch)
+        }
         "glifdata" => {
             let rel = String::from_utf8(unhex(field(toks, "p"))).unwrap();
             match std::fs::read(testdata_root().join(&rel)) {
@@ -882,6 +1382,18 @@ pub fn gen(tier: &str, seed: u64, out: &mut dyn Write) {
     }
     for g in &glifs {
         emit(out, &scratch, &["glifdata".to_string(), format!("p={}", hexs(g))]);
+    }
+    // structure-aware mutations of the repository's own files that still load
+    let (mg, mu) = if tier == "thorough" { (400, 150) } else { (25, 8) };
+    for g in &glifs {
+        for _ in 0..mg {
+            emit(out, &scratch, &["mutglif".to_string(), format!("p={}", hexs(g)), format!("s={}", rng.next() % 1_000_000)]);
+        }
+    }
+    for u in &ufos {
+        for _ in 0..mu {
+            emit(out, &scratch, &["mutufo".to_string(), format!("p={}", hexs(u)), format!("s={}", rng.next() % 1_000_000)]);
+        }
     }
     // generated trees
     let n = if tier == "thorough" { 12_000 } else { 500 };
